@@ -75,7 +75,7 @@ class Scenario:
 class Exec:
     """Result of one execution (picklable)."""
     __slots__ = ("plan", "exit", "signal", "timed_out", "stdout", "stderr", "trace", "src", "proj_other", "tmp",
-                 "cwd", "outside", "lock", "meta_before", "meta_after", "post_check_exit", "post_check_out", "post_mut_ops", "post_snap_diff")
+                 "cwd", "outside", "lock", "meta_before", "meta_after", "post_check_exit", "post_check_out", "post_mut_ops", "post_snap_diff", "follow")
 
     def terminated(self):
         if self.timed_out:
@@ -162,6 +162,9 @@ def execute(args):
             x.post_check_exit = pc.exit if pc.signal is None else -pc.signal
             x.post_mut_ops = [repr(o).replace(work, "$W") for o in pc.trace if o.cls != "log" and (o.cls in ("w", "x") and o.op != "close")]
             x.post_snap_diff = [(r_.replace(work, "$W"), cli.snapshot_diff(before[r_], after[r_])[:3]) for r_ in dirs if before[r_] != after[r_]]
+        x.follow = None
+        if opt.get("followup"):
+            x.follow = _followup(sc, work, proj, tmpdir, opt["followup"])
         if opt.get("tmp_on_disk"):
             shutil.rmtree(tmpdir, ignore_errors=True)
         return x
@@ -170,6 +173,55 @@ def execute(args):
 
 
 execute.counter = 0
+
+
+def shorten(content):
+    """The developer edit of the follow-up: drop the tail of the file (at least one line, about 40 %)."""
+    lines = content.split(b"\n")
+    if len(lines) <= 2:
+        return content
+    keep = max(1, int(len(lines) * 0.6))
+    return b"\n".join(lines[:keep]) + b"\n"
+
+
+def _followup(sc, work, proj, tmpdir, kind):
+    """Recovery run: in the very directories the (possibly killed / failed / interrupted) run left behind - leftovers in TMPDIR and the
+    project included, same absolute paths - optionally apply a developer edit, then run a fault-free edit. The same sources and lock are
+    also materialised in a clean world and edited there. Returns both outcomes for a differential oracle."""
+    src_dir = os.path.join(proj, "src")
+    cur = cli.read_tree(src_dir)
+    if kind == "shorten":
+        for rel, c in cur.items():
+            n = shorten(c)
+            if n != c:
+                with open(os.path.join(src_dir, rel), "wb") as f:
+                    f.write(n)
+                cur[rel] = n
+    lock_path = os.path.join(proj, "Breadlog.lock")
+    lock_bytes = open(lock_path, "rb").read() if os.path.isfile(lock_path) else None
+    leftovers = {"tmp": sorted(os.listdir(tmpdir)), "proj": sorted(f for f in os.listdir(proj) if f not in ("src", "Breadlog.yaml", "Breadlog.lock"))}
+    cwd = os.path.join(work, "cwd")
+    rp = cli.run_breadlog(os.path.join(proj, "Breadlog.yaml"), check=False, cwd=cwd, tmpdir=tmpdir, timeout=30)
+    p_src = cli.read_tree(src_dir)
+    p_lock = cli.read_lock(lock_path)
+    # clean world
+    clean = os.path.join(work, "clean")
+    cproj = os.path.join(clean, "proj")
+    os.makedirs(os.path.join(cproj, "src"))
+    os.makedirs(os.path.join(clean, "tmp"))
+    os.makedirs(os.path.join(clean, "cwd"))
+    with open(os.path.join(cproj, "Breadlog.yaml"), "w") as f:
+        f.write(sc.config)
+    cli.write_tree(os.path.join(cproj, "src"), cur)
+    if lock_bytes is not None:
+        with open(os.path.join(cproj, "Breadlog.lock"), "wb") as f:
+            f.write(lock_bytes)
+    rq = cli.run_breadlog(os.path.join(cproj, "Breadlog.yaml"), check=False, cwd=os.path.join(clean, "cwd"), tmpdir=os.path.join(clean, "tmp"), timeout=30)
+    q_src = cli.read_tree(os.path.join(cproj, "src"))
+    q_lock = cli.read_lock(os.path.join(cproj, "Breadlog.lock"))
+    return {"kind": kind, "before": cur, "leftovers": leftovers, "p_exit": rp.exit if rp.signal is None else -rp.signal, "p_src": p_src, "p_lock": p_lock,
+            "q_exit": rq.exit if rq.signal is None else -rq.signal, "q_src": q_src, "q_lock": q_lock, "lock_before": cli.read_lock.__call__(lock_path) if False else None,
+            "p_panicked": rp.panicked, "p_tmp_after": sorted(os.listdir(tmpdir))}
 
 
 def norm_trace(x):
